@@ -33,7 +33,7 @@ def confirm(prop, i, name=None):
     rc0, o0 = sh(f"/venv/bin/python {demo}", cwd=wt, env=env)
     rca, oa = sh(f"git apply {patch}", cwd=wt)
     assert rca == 0, oa
-    rct, ot = sh("/venv/bin/python -m pytest -q -p no:cacheprovider --continue-on-collection-errors -x --timeout=900 2>&1 | tail -3", cwd=wt, env=env)
+    rct, ot = sh("/venv/bin/python -m pytest -q -p no:cacheprovider --continue-on-collection-errors --timeout=900 2>&1 | tail -3", cwd=wt, env=env)
     sh("git checkout -- examples", cwd=wt)
     rc1, o1 = sh(f"/venv/bin/python {demo}", cwd=wt, env=env)
     files = sh("git diff --name-only", cwd=wt)[1].split()
